@@ -125,13 +125,29 @@ def broken_decls(build_output: str):
     return res
 
 
+def _closure(mods):
+    """source files of the project-local import closure of `mods` (+ the driver and what it imports)"""
+    seen, todo = {}, list(mods) + ["Driver"]
+    while todo:
+        m = todo.pop()
+        if m in seen:
+            continue
+        f = LEAN / (m.replace(".", "/") + ".lean")
+        if not f.exists():
+            continue
+        seen[m] = f
+        for line in f.read_text().splitlines():
+            mm = re.match(r"\s*import\s+(SwcVerif\.\S+)", line)
+            if mm:
+                todo.append(mm.group(1))
+    return [seen[k] for k in sorted(seen)]
+
+
 def audit(pid: str, mods, theorems):
     """`#print axioms` for every property theorem + forbidden-token grep.
     Returns (axioms: {thm: [axioms]}, failures: [str])."""
     failures = []
-    for f in list((LEAN / "SwcVerif").rglob("*.lean")) + [LEAN / "Driver.lean"]:
-        if "Audit" in f.parts:
-            continue
+    for f in _closure(mods):
         incomment = False
         for n, line in enumerate(f.read_text().splitlines(), 1):
             code = line
